@@ -137,6 +137,58 @@ def check(ctx) -> None:
     for v in VALUES:
         judge("C20.value", v2c, v, f"value {_short(v)}")
 
+    # ------------------------------------------------------------------ C20.admit: what is_assertable admits must be renderable
+    ctx.rule("C20.admit", "ABSINT: every value is_assertable admits renders to a valid, equal expression (adversarial containers: non-assertable keys / elements nested anywhere)", floor=6)
+    isa = repo.func(TU, "is_assertable")
+    ctx.analysed(isa)
+    tumod = repo.module(TU)
+
+    class Plain:
+        def __repr__(self):
+            return "<Plain object>"
+
+    ADVERSARIAL = [("dict with a frozenset key", {frozenset({1}): 2}), ("dict with a tuple-of-object key", {(1, Plain()): 3}), ("dict with an object key", {Plain(): 1}),
+                   ("dict with an object value", {"k": Plain()}), ("list with a nested object", [1, [2, Plain()]]), ("tuple with a float", (1, 2.5)), ("set of frozensets", {frozenset({1})}),
+                   ("dict with a float key", {1.5: "a"}), ("nested dict key ok, inner value object", {"a": {"b": Plain()}}), ("plain nested ok", {"a": [1, (2, "x")], 3: None})]
+    for label, value in ADVERSARIAL:
+        try:
+            admitted = bool(peval.Interp(resolver=resolver, max_steps=200000, externs={"OrderedSet": lambda x=(): list(x)}).run_function(isa, [value], {}, tumod))
+        except peval.Undecided as exc:
+            ctx.undecide("C20.admit", isa, f"{label}: {exc}")
+            continue
+        except peval.Raises as exc:
+            ctx.fail("C20.admit", isa, f"{label}: is_assertable raises {exc.name}", stmt=f"[admit] {label}")
+            continue
+        if not admitted:
+            ctx.ok("C20.admit", isa, f"[admit] {label}: not admitted")
+            continue
+        try:
+            text = cstterm.render(run(v2c, [value]))
+            back = cstterm.safe_eval(text, ENUMS)
+            good = same(value, back) or value == back
+            why = f"renders as `{text[:60]}`"
+        except peval.Undecided as exc:
+            ctx.undecide("C20.admit", isa, f"{label}: {exc}")
+            continue
+        except Exception as exc:  # noqa: BLE001 - invalid token, renderer raises, or text does not evaluate
+            good, why = False, f"{type(exc).__name__}: {str(exc)[:80]}"
+        ctx.check("C20.admit", isa, good, f"[admit] {label}: is_assertable admits the value but it cannot be rendered as an equal literal ({why}): the observer records an assertion that fails to render or to hold", what=f"[admit] {label}: admitted and renderable", stmt=f"[admit] {label}")
+
+    # ------------------------------------------------------------------ C20.detached: the expected value is a deep copy of the live object
+    ctx.rule("C20.detached", "every ObjectAssertion the trace observer records holds a deep copy of the observed value (later in-place changes of the live object must not change the expectation)", floor=1)
+    ato = repo.module(ATO)
+    n_oa = 0
+    for qn, fn in ato.functions.items():
+        for c in own_nodes(fn):
+            if isinstance(c, ast.Call) and last_attr(c) == "ObjectAssertion" and len(c.args) >= 2:
+                n_oa += 1
+                ctx.analysed(fn)
+                a = c.args[1]
+                deep = isinstance(a, ast.Call) and norm(a.func) in ("copy.deepcopy", "deepcopy")
+                ctx.check("C20.detached", c, deep, f"{qn}: the expected value of the ObjectAssertion is `{norm(a)[:50]}`, not a deep copy: a nested container that a later statement changes in place changes the recorded expectation too, and the assertion rendered for the earlier position fails", what=f"{qn}: ObjectAssertion holds copy.deepcopy(value)", stmt=f"[{qn}] ObjectAssertion value")
+    if n_oa == 0:
+        raise AnalysisError("no ObjectAssertion construction found in the trace observer")
+
     # ------------------------------------------------------------------ C20.assertions
     class A:  # minimal stand-ins for assertion objects: attribute bags read by the renderers
         pass
